@@ -158,7 +158,8 @@ def gen_c14(r, count, tier):
                     t = {"id": "c14-%d" % q, "kind": "pipeline", "n": n, "failk": k, "term": term, "pstdin": "none", "detached": det,
                          "shape": "left", "pstdout": "none" if term in ("capture", "stream_stdout") else "null",
                          "after": "drop", "stderr_to": False, "watchdog": 12, "producer": True}
-                    t["stub"] = [["writeforever 1", "exit 0"]] + [["streamcat <T%d>" % i, "exit 0"] for i in range(1, n)]
+                    # (every other one ignores write errors, like a shell loop of echo: only the default action of SIGPIPE ends it)
+                    t["stub"] = [["floodhard 1" if q % 2 else "writeforever 1", "exit 0"]] + [["streamcat <T%d>" % i, "exit 0"] for i in range(1, n)]
                     out.append(t)
                     q += 1
     return out
@@ -904,7 +905,7 @@ def c10_real(chk, tier, explicit=None):
     else:
         tpls = []
         q = 0
-        seqs = ["term", "kill", "sig10", "sig0", "sig18", "sig10,sig12,term", "sig0,poll,sig10", "term,wait,term,kill,sig10", "kill,wait,sig15", "sig19,sig18,term"]
+        seqs = ["term", "kill", "sig10", "sig0", "sig18", "sig271,sig65545,sig0,term", "sig10,sig12,term", "sig0,poll,sig10", "term,wait,term,kill,sig10", "kill,wait,sig15", "sig19,sig18,term"]
         if tier != "quick":
             seqs += ["sig%d" % g for g in (1, 2, 3, 13, 14, 15, 17, 23, 28, 34, 64)] + ["sig0,poll,sig18,poll,kill,wait,kill"]
         for setpgid in (False, True):
@@ -993,6 +994,18 @@ def gen_c01_real(tier):
                             "stub": [["readn %d" % k, "write 1 %d" % min(sz, 70000), "exit 0"]],
                             "what": "input of %d bytes, the child reads %d, writes, exits" % (sz, k), "watchdog": 10})
                 q += 1
+        # the child closes its streams early and lingers: the exchange ends when the streams are closed, not when the
+        # process is gone (the child itself must not be left holding other copies of its pipe ends)
+        if term == "communicate":
+            for kids, data in ((["write 1 100", "write 2 50", "close 1", "close 2", "sleep 2500", "exit 0"], None),
+                               (["close 0", "write 1 100", "close 1", "close 2", "sleep 2500", "exit 0"], b"d" * 1000000),
+                               (["readn 10", "close 0", "close 1", "close 2", "sleep 2500", "exit 0"], b"d" * 300000)):
+                t = {"id": "c01r-%d" % q, "kind": "handle", "n": 1, "term": term, "stub": [kids],
+                     "what": "the child does %s" % "; ".join(kids), "watchdog": 10, "prompt_ms": 1500}
+                if data is not None:
+                    t["pstdin"], t["data"] = "data", data
+                out.append(t)
+                q += 1
         # both outputs above the pipe capacity, alternating, while input is pending
         for order in ((1, 2), (2, 1)):
             out.append({"id": "c01r-%d" % q, "kind": "handle", "n": 1, "term": term, "pstdin": "data", "data": b"d" * 200000,
@@ -1024,6 +1037,9 @@ def c01_real(chk, tier, explicit=None):
             chk.violation("C01: the exchange returned %s [%s]" % (res, what), "real\n" + tpl_to_json(t))
             continue
         ms = out_field(s, "term_ms")
+        if ms is not None and t.get("prompt_ms") and int(ms) > t["prompt_ms"]:
+            chk.violation("C01: the child had closed its streams at once, yet the exchange returned only after %s ms (when the process was gone) [%s]" % (ms, what), "real\n" + tpl_to_json(t))
+            continue
         if ms is not None and int(ms) > 5000:
             chk.violation("C01: the exchange needed %s ms although every child had finished or closed its streams long before [%s]" % (ms, what), "real\n" + tpl_to_json(t))
             continue
